@@ -551,14 +551,17 @@ structure POpt where
   cache : Cache
   deriving DecidableEq, Repr
 
+/-- The perspective's entry for one registered option: its migrated and validated value, if the flattened config has one. -/
+def pEntry (m : List (Key × Val)) (o : Opt) : Option POpt :=
+  match lookup m o.key with
+  | none => none
+  | some v => match check o v with
+    | .ok c => some { key := o.key, ty := o.ty, rl := o.rl, cache := c }
+    | .error _ => none
+
 /-- `NewPerspective(config)`: the valid entries, and the number of invalid ones. -/
 def newPerspective (st : St) (t : List (Key × Val)) : List POpt × Nat :=
-  (st.opts.filterMap (fun o => match lookup (flatten t) o.key with
-      | none => none
-      | some v => match check o v with
-        | .ok c => some { key := o.key, ty := o.ty, rl := o.rl, cache := c }
-        | .error _ => none),
-   (st.opts.filterMap (replErr (flatten t))).length)
+  (st.opts.filterMap (pEntry (flatten t)), (st.opts.filterMap (replErr (flatten t))).length)
 
 /-- `getPerspectiveValueCache(name, requestedType)`; `ty = none` is optTypeAny (`Has`). -/
 def pCache (st : St) (p : List POpt) (k : Key) (ty : Option OptType) : Option Cache :=
